@@ -5,6 +5,7 @@ import (
 	"encoding/hex"
 	"encoding/json"
 	"fmt"
+	"os"
 	"sort"
 	"strings"
 )
@@ -22,8 +23,11 @@ func (InProc) Do(method, url string, body []byte) (Resp, error) { return Do(meth
 // Snapshot is the observable state of a server: endpoint -> "code:digest" (small bodies are kept verbatim).
 type Snapshot map[string]string
 
+// verbose (env VERIF_SNAP_VERBOSE, for analysing a replay) keeps bodies up to 6000 bytes verbatim
+var verbose = os.Getenv("VERIF_SNAP_VERBOSE") != ""
+
 func digest(r Resp) string {
-	if len(r.Body) <= 200 {
+	if len(r.Body) <= 200 || (verbose && len(r.Body) <= 6000) {
 		return fmt.Sprintf("%d:%q", r.Code, r.Body)
 	}
 	h := sha1.Sum(r.Body)
@@ -129,7 +133,7 @@ func TakeSnapshot(d Doer, o SnapOpts) (Snapshot, error) {
 		for _, line := range strings.Split(norm, "\n") {
 			if i := strings.Index(line, "="); i > 0 {
 				v := line[i+1:]
-				if len(v) > 300 {
+				if len(v) > 300 && !(verbose && len(v) <= 6000) {
 					h := sha1.Sum([]byte(v))
 					v = fmt.Sprintf("sha1=%s len=%d", hex.EncodeToString(h[:8]), len(v))
 				}
@@ -323,6 +327,15 @@ func TakeSnapshot(d Doer, o SnapOpts) (Snapshot, error) {
 								s[base+fmt.Sprintf(t, b)] = fmt.Sprintf("%d:%s", r2.Code, sortedJSONNumbers(r2.Body))
 								continue
 							}
+							if strings.HasSuffix(t, "format=srles") {
+								// streaming RLEs arrive in block-fetch order (not promised): compare the set of runs
+								r2, err := d.Do("GET", base+fmt.Sprintf(t, b), nil)
+								if err != nil {
+									return nil, err
+								}
+								s[base+fmt.Sprintf(t, b)] = fmt.Sprintf("%d:%s", r2.Code, sortedRuns(r2.Body))
+								continue
+							}
 							if _, err := g(fmt.Sprintf(t, b), nil); err != nil {
 								return nil, err
 							}
@@ -438,6 +451,24 @@ func sortedBlockStream(b []byte) string {
 	sort.Strings(recs)
 	h := sha1.Sum([]byte(strings.Join(recs, ",")))
 	return fmt.Sprintf("blocks=%d sha1=%s", len(recs), hex.EncodeToString(h[:8]))
+}
+
+// sortedRuns digests a streaming-RLE sparse volume (16 byte runs: x, y, z, length) independent of run order.
+func sortedRuns(b []byte) string {
+	if len(b)%16 != 0 || len(b) == 0 {
+		return digest(Resp{Code: 0, Body: b})
+	}
+	n := len(b) / 16
+	runs := make([]string, n)
+	for i := 0; i < n; i++ {
+		runs[i] = string(b[16*i : 16+16*i])
+	}
+	sort.Strings(runs)
+	h := sha1.New()
+	for _, r := range runs {
+		h.Write([]byte(r))
+	}
+	return fmt.Sprintf("runs=%d sha1=%s", n, hex.EncodeToString(h.Sum(nil)[:8]))
 }
 
 // sortedJSONNumbers renders the numbers found in a JSON document in sorted order (for set-valued answers).
